@@ -146,15 +146,27 @@ func cmdDiscovery(args []string) error {
 		}
 	}
 	rng := rand.New(rand.NewSource(seed))
+	// the seeded part also uses many locations at once (up to twelve devices discovered in one batch, revisited in any
+	// interleaving): more than any fixed small capacity inside the grouping code
+	wide := tab
+	wide.Locs = append([]string{}, tab.Locs...)
+	for i := 3; i <= 11; i++ {
+		wide.Locs = append(wide.Locs, fmt.Sprintf("usb-0000:00:14.0-%d", i))
+	}
 	for c := 0; c < nrand; c++ {
 		n := maxlen + 1 + rng.Intn(randMax-maxlen)
+		t := &tab
+		if c%2 == 1 {
+			t = &wide
+			n += rng.Intn(8)
+		}
 		seq := make([][2]int, n)
 		for i := range seq {
-			seq[i] = [2]int{rng.Intn(len(classes)), rng.Intn(len(tab.Locs))}
+			seq[i] = [2]int{rng.Intn(len(classes)), rng.Intn(len(t.Locs))}
 		}
 		// the same multiset in three orders
 		for k := 0; k < 3; k++ {
-			enc.Encode(normalizeCase(&tab, classes, seq, rng))
+			enc.Encode(normalizeCase(t, classes, seq, rng))
 			rng.Shuffle(len(seq), func(a, b int) { seq[a], seq[b] = seq[b], seq[a] })
 		}
 	}
